@@ -1045,7 +1045,9 @@ func (r *transformingReader) Read(data []byte) (n int, err error) {
 		if err := r.prepareMessage(); err != nil {
 			r.err = err
 			r.rw.reportError(err)
-			return 0, io.EOF
+			// (not io.EOF: for a server protocol without envelopes a clean end of
+			// the body would look like a complete - empty or partial - message)
+			return 0, err
 		}
 	}
 }
